@@ -115,18 +115,6 @@ fn check_state(s: &St, obs: &mut Obs) {
     if back != s.d || cells(&back) != cells(&s.d) {
         obs.fail("debug-from_pattern-round-trip", format!("from_pattern(Debug output) differs from the display; output:\n{dbg}"));
     }
-    let last_row = s.m.keys().map(|k| k.1).max();
-    let want_rows = last_row.map_or(0, |r| r as usize + 1);
-    if rows.len() != want_rows {
-        obs.fail("debug-prints-rows-up-to-last-touched", format!("{} rows printed, {} expected", rows.len(), want_rows));
-    }
-    for (y, row) in rows.iter().enumerate() {
-        let want: String = (0..64).map(|x| match s.m.get(&(x, y as i32)) { None => ' ', Some(false) => '.', Some(true) => '#' }).collect();
-        if *row != want {
-            obs.fail("debug-row-matches-cells", format!("row {y}: {:?} expected {:?}", row, want));
-            break;
-        }
-    }
     // equality / diff against the predecessor and the blank display
     let blank = MockDisplay::<BinaryColor>::new();
     let mut others: Vec<(&MockDisplay<BinaryColor>, BTreeMap<P2, bool>)> = vec![(&blank, BTreeMap::new())];
@@ -310,18 +298,8 @@ fn pattern_check<C: PixelColor + ColorMapping + core::fmt::Debug>(p: &Pat, table
             }
         }
     }
+    // only the round trip is asserted (the statement does not fix the text format beyond being parseable by from_pattern)
     let (rows, dbg) = debug_rows(&d);
-    let last = p.rows.iter().rposition(|r| r.chars().any(|c| c != ' '));
-    let want_rows = last.map_or(0, |r| r + 1);
-    if rows.len() != want_rows {
-        obs.fail("debug-prints-rows-up-to-last-touched", format!("{} rows printed, {want_rows} expected: {dbg}", rows.len()));
-    }
-    for (y, row) in rows.iter().enumerate() {
-        let want: String = (0..64).map(|x| p.rows[y].chars().nth(x).unwrap_or(' ')).collect();
-        if *row != want {
-            obs.fail("debug-row-matches-pattern", format!("row {y}: {:?} expected {:?}", row, want));
-        }
-    }
     let r2: Vec<&str> = rows.iter().map(|r| r.as_str()).collect();
     let back = MockDisplay::<C>::from_pattern(&r2);
     if back != d || !back.diff(&d).affected_area().is_zero_sized() {
